@@ -10,7 +10,7 @@ import json, os, shutil, subprocess, sys, time
 prop, n = sys.argv[1], sys.argv[2]
 checks = sys.argv[3:] or [prop]
 scale = os.environ.get("SEED_SCALE", "0.5")
-wt = "/tmp/wt-%s" % prop
+wt = os.environ.get("WT_PREFIX", "/tmp/wt-") + prop
 sd = os.path.join(wt, "seeded", n)
 env = dict(os.environ, CARGO_NET_OFFLINE="true", RUST_BACKTRACE="0")
 
